@@ -364,3 +364,7 @@ def main(argv):
         print('ERROR (harness, not a verdict): %s' % e, flush=True)
         traceback.print_exc()
         return 2
+    except Exception as e:  # noqa  — any crash of the machinery is an infrastructure error, never a verdict
+        print('ERROR (harness crashed, not a verdict): %s: %s' % (type(e).__name__, e), flush=True)
+        traceback.print_exc()
+        return 2
